@@ -59,6 +59,9 @@ def check_truth(ctx, index, logical, metric, trace, stats, what):
         else:
             for i in range(n):
                 row = [int(x) for x in ind[i] if x >= 0]
+                if not row and n > ind.shape[1] + 1:
+                    problems.append("row %d of the neighbor graph is empty (all -1) although the logical dataset has %d points: the point is not indexed" % (i, n))
+                    break
                 if len(set(row)) != len(row):
                     problems.append("row %d of the neighbor graph lists a point twice: %s" % (i, ind[i].tolist()))
                     break
